@@ -69,7 +69,7 @@ pub proof fn lemma_hunk_header_is_no_submodule_line(l: Seq<char>)
 }
 impl<'a> StateMachine<'a> {
     //@ fn src/handlers/hunk_header.rs StateMachine::test_hunk_header_line
-    //@| ensures r == (is_prefix("@@"@, self.line@) && !(self.state is MergeConflict)),
+    //@| ensures r == (is_prefix("@@"@, self.line@) && !(self.state is MergeConflict)),  // @C04,C14:a.hunk.header.is.a.line.that.starts.with.two.at.signs.outside.a.conflict.region
     //@ fn src/handlers/hunk_header.rs StateMachine::handle_hunk_header_line spec=hunk_header.handle_hunk_header_line
     //@before <<<let mut handled_line = false;>>>| proof { lemma_hunk_header_is_no_submodule_line(self.line@); }
     //@rewrite <<<self.line.chars().take_while(|c| c == &'@').count()>>> => <<<verif_count_leading_ats(&self.line)>>>
